@@ -779,4 +779,80 @@ theorem adjLe_simpsPoints_symmetric (c : List ℚ) (hs : StrictInc c) : adjLe (s
         · intro l hl'; rw [hl] at hl'; cases hl'; simp only [Gen.binEndHi]; linarith
 
 
+/-- the line through (x0, y0), (x1, y1) -/
+def lineThrough (x0 y0 x1 y1 x : ℚ) : ℚ := y0 + (y1 - y0) / (x1 - x0) * (x - x0)
+/-- a primitive of that line: `linePrim (x + h) − linePrim x = h·lineThrough x + slope·h²/2` (`linePrim_is_primitive`) -/
+def linePrim (x0 y0 x1 y1 x : ℚ) : ℚ := y0 * x + (y1 - y0) / (x1 - x0) * (x - x0) ^ 2 / 2
+
+theorem seg_on_segment : ∀ (xs ys : List ℚ) (x : ℚ) (i : ℕ) (a b ya yb : ℚ), StrictInc xs →
+    xs[i]? = some a → xs[i + 1]? = some b → ys[i]? = some ya → ys[i + 1]? = some yb → a ≤ x → x ≤ b →
+    seg xs ys x = lineThrough a ya b yb x := by
+  intro xs
+  induction xs with
+  | nil => intro ys x i a b ya yb _ ha; simp at ha
+  | cons x0 xs ih =>
+    intro ys x i a b ya yb hs ha hb hya hyb hax hxb
+    cases xs with
+    | nil => simp at hb
+    | cons x1 rest =>
+      cases ys with
+      | nil => simp at hya
+      | cons y0 ys => cases ys with
+        | nil => simp at hyb
+        | cons y1 ys' =>
+          have h01 : x0 < x1 := (List.pairwise_cons.mp hs).1 x1 (by simp)
+          have hs' := (List.pairwise_cons.mp hs).2
+          cases i with
+          | zero =>
+            simp at ha hb hya hyb; subst ha; subst hb; subst hya; subst hyb
+            simp only [seg, hxb, if_true, lineThrough]; ring
+          | succ j =>
+            simp only [List.getElem?_cons_succ] at ha hb hya hyb
+            -- a is an element of the tail, so x1 ≤ a
+            have hx1a : x1 ≤ a := head_le_of_strictInc (x1 :: rest) x1 hs' (by simp) a (List.mem_of_getElem? ha)
+            by_cases hx1 : x ≤ x1
+            · -- then x = x1 = a and j = 0
+              have hxa : x = a := le_antisymm (le_trans hx1 hx1a) hax
+              have hax1 : a = x1 := le_antisymm (by rw [← hxa]; exact hx1) hx1a
+              have hj : j = 0 := by
+                by_contra hj
+                obtain ⟨k, rfl⟩ := Nat.exists_eq_succ_of_ne_zero hj
+                simp only [List.getElem?_cons_succ] at ha
+                have := (List.pairwise_cons.mp hs').1 a (List.mem_of_getElem? ha)
+                linarith
+              subst hj
+              simp at hya; subst hya
+              have hxx1 : x = x1 := hxa.trans hax1
+              subst hxx1
+              have hd : x - x0 ≠ 0 := by linarith
+              subst hax1
+              simp only [seg, le_refl, if_true, lineThrough, sub_self, mul_zero, add_zero]
+              field_simp; ring
+            · simp only [seg, hx1, if_false]
+              exact ih (y1 :: ys') x j a b ya yb hs' ha hb hya hyb hax hxb
+
+
+theorem trapzBins_getElem : ∀ (x f : List ℚ) (k : ℕ) (e0 e1 f0 f1 : ℚ),
+    x[k]? = some e0 → x[k + 1]? = some e1 → f[k]? = some f0 → f[k + 1]? = some f1 →
+    (trapzBins x f)[k]? = some (Gen.trapzTerm e0 e1 f0 f1) := by
+  intro x
+  induction x with
+  | nil => intro f k e0 e1 f0 f1 h; simp at h
+  | cons x0 x ih =>
+    intro f k e0 e1 f0 f1 h0 h1 g0 g1
+    cases x with
+    | nil => simp at h1
+    | cons x1 xs => cases f with
+      | nil => simp at g0
+      | cons y0 f => cases f with
+        | nil => simp at g1
+        | cons y1 fs =>
+          cases k with
+          | zero => simp at h0 h1 g0 g1; subst h0; subst h1; subst g0; subst g1; simp [trapzBins]
+          | succ j =>
+            simp only [List.getElem?_cons_succ] at h0 h1 g0 g1
+            simp only [trapzBins, List.getElem?_cons_succ]
+            exact ih (y1 :: fs) j e0 e1 f0 f1 h0 h1 g0 g1
+
+
 end Lentil.Spec
